@@ -1041,7 +1041,7 @@ End ValueInd.
 
 Lemma atom_match_refl a : atom_match a a = true.
 Proof.
-  destruct a as [| b | z | s | ty k]; simpl; auto.
+  unfold atom_match. destruct a as [| b | z | s | ty k]; simpl; auto.
   - now destruct b.
   - apply Z.eqb_refl.
   - apply N.eqb_refl.
